@@ -146,6 +146,43 @@ fn non_ascii_stream(out: &mut Out, thorough: bool) {
             out.line(&format!("J nopanic nonascii {} {} at={} {}", $name, crate::c10::hex($s), at, if verdict == "OK" { "OK" } else { "PANIC" }), "ok");
         } else { out.count(concat!("nonascii ok ", $name)); }
     }}; }
+    // TRUNCATIONS: every prefix and every suffix of every key expression (short and LONG origins,
+    // xpub / xprv / WIF / hex keys, paths, multipath, wildcards), alone and as the key of every
+    // wrapper: parsers test total lengths and then slice segments - a long valid head with a
+    // 0..3-byte tail (or the reverse) passes the length test and reaches the slice
+    {
+        let long_origin = "[aabbccdd/44'/0'/0'/1000000000/1000000001/1000000002/1000000003/1000000004]";
+        let keys: Vec<String> = vec![
+            PK.into(), XO.into(), XPUB.into(), XPRV.into(), "L4rK1yDtCWekvXuE6oXD9jCYfFNV2cWRpVuPLBcCU2z8TrisoyY1".into(),
+            format!("[d34db33f/44'/0'/0']{}", PK), format!("[d34db33f/44h/0h]{}/1/*", XPUB), format!("{}/<0;1>/*", XPUB),
+            format!("[d34db33f]{}/0'/*h", XPRV), format!("{}{}", long_origin, PK), format!("{}{}/0/*", long_origin, XPUB),
+            format!("{}{}/<0;1;2>/*h", long_origin, XPRV), format!("{}{}", long_origin, XO),
+        ];
+        let mut trunc: Vec<String> = vec![];
+        for k in &keys {
+            let cs: Vec<char> = k.chars().collect();
+            let mut cuts: Vec<usize> = (0..=cs.len()).collect();
+            if !thorough && cs.len() > 90 {
+                // all cuts within 6 characters of a structural character or of either end, every 7th otherwise
+                cuts.retain(|i| *i < 8 || *i + 8 > cs.len() || i % 7 == 0 || (i.saturating_sub(6)..(*i + 6).min(cs.len())).any(|j| "[]/<>;'*h".contains(cs[j])));
+            }
+            for i in cuts {
+                trunc.push(cs[..i].iter().collect());
+                trunc.push(cs[i..].iter().collect());
+            }
+        }
+        trunc.sort(); trunc.dedup();
+        out.note("truncated_key_expressions", trunc.len().to_string());
+        for t in &trunc {
+            inputs.push(t.clone());
+            for w in ["pk({})", "pkh({})", "wpkh({})", "sh(wpkh({}))", "tr({})", "wsh(pk({}))"] { inputs.push(w.replace("{}", t)); }
+            inputs.push(format!("wsh(multi(1,{},{}))", t, PK));
+            inputs.push(format!("tr({},pk({}))", XO, t));
+            inputs.push(format!("sh(sortedmulti(1,{},{}))", PK, t));
+        }
+        inputs.sort(); inputs.dedup();
+        out.note("non_ascii_and_truncation_inputs", inputs.len().to_string());
+    }
     for s in &inputs {
         probe!("DescriptorPublicKey", DescriptorPublicKey, s);
         probe!("DescriptorSecretKey", DescriptorSecretKey, s);
